@@ -394,6 +394,23 @@ func constBounds(c *Ctx, p *Prog, m *Model) {
 	}
 	sort.Slice(fns, func(i, j int) bool { return shortName(fns[i]) < shortName(fns[j]) })
 	for _, fn := range fns {
+		// fixed-size tables indexed by a computed position whose range the code tests (or its type gives)
+		for _, s := range arrayBoundSites(fn) {
+			var idx ssa.Value
+			switch i := s.in.(type) {
+			case *ssa.IndexAddr:
+				idx = i.Index
+			case *ssa.Index:
+				idx = i.Index
+			}
+			up, why, have := idxUpper(idx, s.in.Block())
+			if !have {
+				continue // no stated belief about the range: not an instance of this rule
+			}
+			key := fmt.Sprintf("bounds:%s[table %s]", shortName(fn), m.valDesc(s.x))
+			r.Check(up < s.need, "R02.8", key, p.Pos(instrPos(s.in)), fmt.Sprintf("the position is at most %d (%s), the table has %d entries", up, why, s.need),
+				fmt.Sprintf("the table has %d entries but the position can be %d (%s): that value makes the logging call panic with an index out of range", s.need, up, why))
+		}
 		sites := constBoundSites(fn)
 		if len(sites) == 0 {
 			continue
@@ -415,4 +432,142 @@ func constBounds(c *Ctx, p *Prog, m *Model) {
 			r.Ok("R02.8", key, p.FuncPos(fn), "%d constant position(s), each within the length established on every path to it: %s", len(good), strings.Join(good, "; "))
 		}
 	}
+}
+
+// idxUpper: an upper bound of a non-constant array index from its type, its arithmetic and the comparisons with
+// constants that dominate the use (on the value itself or on the narrower value it was converted from).
+func idxUpper(idx ssa.Value, b *ssa.BasicBlock) (int64, string, bool) {
+	cands := []ssa.Value{idx}
+	for v := idx; ; {
+		cv, ok := v.(*ssa.Convert)
+		if !ok {
+			break
+		}
+		v = cv.X
+		cands = append(cands, v)
+	}
+	best, why, have := int64(0), "", false
+	take := func(k int64, w string) {
+		if !have || k < best {
+			best, why, have = k, w, true
+		}
+	}
+	for _, cnd := range cands {
+		if bt, ok := cnd.Type().Underlying().(*types.Basic); ok {
+			switch bt.Kind() {
+			case types.Uint8:
+				take(255, "byte range")
+			case types.Uint16:
+				take(65535, "uint16 range")
+			}
+		}
+		if bo, ok := cnd.(*ssa.BinOp); ok {
+			if k, isC := constInt(bo.Y); isC {
+				switch bo.Op {
+				case token.AND:
+					take(k, fmt.Sprintf("& %d", k))
+				case token.REM:
+					if k > 0 {
+						take(k-1, fmt.Sprintf("%% %d", k))
+					}
+				}
+			}
+		}
+	}
+	for _, g := range guardsOf(b) {
+		cond, neg := normCond(g.If.Cond)
+		bo, ok := cond.(*ssa.BinOp)
+		if !ok {
+			continue
+		}
+		taken := (g.Succ == 0) != neg
+		for _, cnd := range cands {
+			op := bo.Op
+			var k int64
+			var isC bool
+			switch {
+			case bo.X == cnd:
+				k, isC = constInt(bo.Y)
+			case bo.Y == cnd:
+				k, isC = constInt(bo.X)
+				// k op' idx: mirror
+				switch op {
+				case token.LSS:
+					op = token.GTR
+				case token.LEQ:
+					op = token.GEQ
+				case token.GTR:
+					op = token.LSS
+				case token.GEQ:
+					op = token.LEQ
+				}
+			default:
+				continue
+			}
+			if !isC {
+				continue
+			}
+			if !taken {
+				switch op {
+				case token.LSS:
+					op = token.GEQ
+				case token.LEQ:
+					op = token.GTR
+				case token.GTR:
+					op = token.LEQ
+				case token.GEQ:
+					op = token.LSS
+				case token.EQL:
+					op = token.NEQ
+				case token.NEQ:
+					op = token.EQL
+				}
+			}
+			switch op {
+			case token.LSS:
+				take(k-1, fmt.Sprintf("tested < %d", k))
+			case token.LEQ:
+				take(k, fmt.Sprintf("tested <= %d", k))
+			case token.EQL:
+				take(k, fmt.Sprintf("tested == %d", k))
+			}
+		}
+	}
+	return best, why, have
+}
+
+// arrayBoundSites: indexing a fixed-size array (or a pointer to one) at a computed position.
+func arrayBoundSites(fn *ssa.Function) []boundSite {
+	var out []boundSite
+	arrLen := func(t types.Type) (int64, bool) {
+		if pt, ok := t.Underlying().(*types.Pointer); ok {
+			t = pt.Elem()
+		}
+		if a, ok := t.Underlying().(*types.Array); ok {
+			return a.Len(), true
+		}
+		return 0, false
+	}
+	for _, b := range fn.Blocks {
+		for _, in := range b.Instrs {
+			var x, idx ssa.Value
+			switch i := in.(type) {
+			case *ssa.IndexAddr:
+				x, idx = i.X, i.Index
+			case *ssa.Index:
+				x, idx = i.X, i.Index
+			default:
+				continue
+			}
+			n, ok := arrLen(x.Type())
+			if !ok {
+				continue
+			}
+			if _, isC := constInt(idx); isC {
+				continue // the compiler rejects a constant out of range
+			}
+			out = append(out, boundSite{in, x, n, ""})
+		}
+	}
+	return out
 }
